@@ -1,9 +1,28 @@
 """C16 — evaluating an Ink function from the host does not disturb the story (save/restore pairing, refusals, return channel)."""
 from analysis.facts import callee, callee_short
 from analysis.cfg import cfg
+from analysis.guards import resolve_cond
 from analysis.defuse import Tracer
 from analysis.wbf import WriteBeforeFail, err_exits
 from rules.c09 import EXIT_TABLE
+
+
+def _flag_known(prog, fn, w, tr):
+    """validate_external_bindings sits under `if !has_validated_externals`: the join after it dominates w."""
+    g = cfg(fn)
+    for b in g.dominators().get(w, ()):
+        tt = fn.blocks[b]['term']
+        if tt and tt['k'] == 'switch':
+            c = resolve_cond(prog, fn, tt['d'], tr)
+            if c is not None and c.desc[0] == 'field' and c.desc[1] == 'Story::has_validated_externals':
+                # the not-yet-validated side must call validate_external_bindings before reaching w
+                vb = [bb for bb, t in fn.calls() if callee_short(t) == 'Story::validate_external_bindings']
+                for v, tb in tt['ts'] + [(None, tt['else'])]:
+                    truth = c.truth_of_value(v) if v is not None else (not c.truth_of_value(tt['ts'][0][0]))
+                    if truth is False and w in g.reachable([tb], avoid=vb):
+                        return False
+                return True
+    return False
 
 
 def run(chk, prog):
@@ -86,6 +105,68 @@ def run(chk, prog):
                    'a path from start_function_evaluation_from_game to a return skips '
                    'complete_function_evaluation_from_game: the host frame stays on the call stack', ef.loc(complete[0]),
                    {'witness_blocks': w2})
+
+    # ---- (a2) nothing else of the story is touched
+    RE = 'C16.only-paired-state-changes'
+    chk.rule(RE, 'Apart from running the function (cont), evaluate_function changes story state only through the paired '
+             'steps - reset_output(None)/reset_output(Some(saved)) and start_/complete_function_evaluation_from_game '
+             '(one frame pushed, the same frame popped): no other callee with a write effect on the story state '
+             '(call stack, threads, flows, variables, counts) and no direct write.')
+    from analysis.effects import Effects
+    from analysis.wbf import CACHE_FIELDS
+    eff = Effects(prog, cache_fields=CACHE_FIELDS, tracer=tr)
+    PAIRED = {'StoryState::reset_output', 'StoryState::start_function_evaluation_from_game', 'Story::cont',
+              'StoryState::complete_function_evaluation_from_game', 'StoryState::set_previous_pointer',
+              'Story::validate_external_bindings'}
+    # set_previous_pointer is a restore: its value is the pointer read before the frame was pushed
+    spp = [(bb, t) for bb, t in ef.calls() if callee_short(t) == 'StoryState::set_previous_pointer']
+    gpp = [bb for bb, t in ef.calls() if callee_short(t) == 'StoryState::get_previous_pointer']
+    if chk.anchor(RE, 'restore of the previous pointer in evaluate_function', spp):
+        for i, (bb, t) in enumerate(spp):
+            at = tr.prov(ef, t['args'][1])
+            ok = any('StoryState::get_previous_pointer' in a for a in at) and bool(gpp) and bool(start) \
+                and all(g.dominates(x, start[0]) for x in gpp) and all(g.dominates(c, bb) for c in complete)
+            chk.decide(RE, chk.key(RE, 'previous-pointer-restored', '#%d' % i), ok,
+                       'the previous pointer written after the frame was popped is the one read before it was pushed',
+                       'evaluate_function writes a previous pointer that is not the one it saved before pushing the '
+                       'frame (provenance %s), or not after the frame was popped: the main story\'s next divert counts '
+                       'visits from inside the function' % sorted(a for a in at if not a.startswith('via:'))[:4],
+                       ef.loc(bb))
+    # the bindings are validated while nothing is changed (the nested continue would do it after the push)
+    veb = [bb for bb, t in ef.calls() if callee_short(t) == 'Story::validate_external_bindings']
+    first_w = [e['bb'] for e in eff.events(ef) if e['kind'] == 'repo-call' and prog.fns.get(e['callee']) is not None
+               and prog.fns[e['callee']].short in ('StoryState::reset_output',
+                                                   'StoryState::start_function_evaluation_from_game')]
+    chk.decide(RE, chk.key(RE, 'bindings-validated-first'), bool(veb) and all(
+        any(g.dominates(v, w) or _flag_known(prog, ef, w, tr) for v in veb) for w in first_w),
+        'the external bindings are validated (or known to be) before the first change',
+        'evaluate_function no longer validates the external bindings before pushing its frame: with an unbound '
+        'EXTERNAL the nested continue fails afterwards and the frame stays on the main story\'s call stack',
+        ef.loc(first_w[0]) if first_w else ef.loc(0))
+    # ... and a story with an undelivered error is refused
+    he = [bb for bb, t in ef.calls() if callee_short(t) == 'StoryState::has_error']
+    chk.decide(RE, chk.key(RE, 'pending-error-refused'), bool(he) and all(any(g.dominates(h, w) for h in he)
+                                                                           for w in first_w),
+               'has_error() is tested before the first change',
+               'evaluate_function does not test has_error() before it starts: with an undelivered error the function '
+               'never runs (can_continue is false) and the last argument comes back as the result',
+               ef.loc(first_w[0]) if first_w else ef.loc(0))
+    extra = []
+    for gfn in prog.with_closures(ef):
+        for e in eff.events(gfn):
+            if e['kind'] == 'repo-call':
+                h = prog.fns.get(e['callee'])
+                w = eff.summaries()[h.p][0] - CACHE_FIELDS if h is not None else set()
+                if w and h.short not in PAIRED:
+                    extra.append((gfn.loc(e['bb']), 'call ' + h.short, sorted(w)[:4]))
+            elif e['fields'] - CACHE_FIELDS:
+                extra.append((gfn.loc(e['bb']), e['what'], sorted(e['fields'])[:4]))
+    chk.decide(RE, chk.key(RE, 'Story::evaluate_function'), not extra,
+               'the only state-changing steps are the two paired ones and the run itself',
+               'evaluate_function also changes the story through %s: a change outside the paired save/restore and '
+               'push/pop steps is visible to the main story afterwards' % '; '.join('%s (%s)' % (x[1], ', '.join(x[2]))
+                                                                                     for x in extra[:3]),
+               extra[0][0] if extra else ef.loc(0))
 
     # ---- (b)
     wbf = WriteBeforeFail(prog, tr)
